@@ -313,7 +313,7 @@ def install(I):
             return [(TOP, st)]
         loc, start, ln, elems = sv
         if is_int(idx):
-            okb = int_cmp("Lt", idx, ln)
+            okb = I.cmp("Lt", idx, ln, st)
             panic_ob(I, st, ctx, "index:bounds", int_const(okb) == 1, "index %s out of bounds for length %s" % (I.show(idx), I.show(ln)))
             s0 = int_const(start)
             off = idx if s0 == 0 else int_binop("Add", idx, start)
@@ -338,8 +338,8 @@ def install(I):
                 return [(TOP, st)]
             if not (is_int(lo) and is_int(hi)):
                 return [(TOP, st)]
-            ok1 = int_const(int_cmp("Le", lo, hi)) == 1
-            ok2 = int_const(int_cmp("Le", hi, ln)) == 1
+            ok1 = int_const(I.cmp("Le", lo, hi, st)) == 1
+            ok2 = int_const(I.cmp("Le", hi, ln, st)) == 1
             panic_ob(I, st, ctx, "index:range", ok1 and ok2, "slice [%s..%s] may be out of range for length %s" % (I.show(lo), I.show(hi), I.show(ln)))
             nstart = lo if int_const(start) == 0 else int_binop("Add", start, lo)
             nlen = int_binop("Sub", hi, lo) if ok1 else top_int(64)
@@ -394,6 +394,63 @@ def install(I):
             I.write_loc(st, (d[0][0], d[0][1], d[0][2] + (("i", const(ds + i, 64), None),), None), a[1])
         return [(UNIT, st)]
 
+    # ---------------- slice iterators (summarised: static facts survive loop havoc)
+    @model("slice::chunks_exact", "slice::chunks_exact_mut", "<impl [T]>::chunks_exact", "<impl [T]>::chunks_exact_mut")
+    def chunks_exact(I, st, a, ctx):
+        sv = slice_view(I, st, a[0])
+        n = int_const(a[1]) if is_int(a[1]) else None
+        if sv is None or n is None or n == 0:
+            return NotImplemented
+        return [(("iter", "chunks", (a[0], n, sv[2])), st)]
+
+    @model("slice::iter", "slice::iter_mut", "<impl [T]>::iter", "<impl [T]>::iter_mut")
+    def slice_iter(I, st, a, ctx):
+        sv = slice_view(I, st, a[0])
+        if sv is None:
+            return NotImplemented
+        return [(("iter", "slice", (a[0], 1, sv[2])), st)]
+
+    @model("Iterator::enumerate")
+    def enumerate_(I, st, a, ctx):
+        if isinstance(a[0], tuple) and a[0] and a[0][0] == "iter":
+            return [(("iter", "enumerate", (a[0],)), st)]
+        return NotImplemented
+
+    @model("Iterator::position")
+    def position(I, st, a, ctx):
+        p = a[0]
+        it = I.read_loc(st, (p[1], p[2], p[3], None)) if is_ptr(p) else p
+        if isinstance(it, tuple) and it and it[0] == "iter" and it[1] in ("slice", "chunks"):
+            ln = it[2][2]
+            cnt_hi = ln[5] // it[2][1]
+            if cnt_hi == 0:
+                return [(NONE, st)]
+            return [(some(mk_int(64, False, None, 0, cnt_hi - 1)), st.fork()), (NONE, st)]
+        return NotImplemented
+
+    def iter_items(I, st, it):
+        """(count upper bound, item value) of a summarised iterator"""
+        if it[1] in ("chunks", "slice"):
+            base, n, ln = it[2]
+            cnt = ln[5] // n
+            sv = slice_view(I, st, base)
+            if sv is None:
+                return cnt, TOP
+            loc, start, ln_, elems = sv
+            if it[1] == "chunks":
+                hi = max(ln[5] - n, 0)
+                off = mk_int(64, False, None, 0, hi)
+                s0 = int_const(start)
+                win_start = off if s0 == 0 else int_binop("Add", start, off)
+                return cnt, ptr(loc[0], loc[1], loc[2], (win_start, const(n, 64)), base[5] if is_ptr(base) else False)
+            idx = mk_int(64, False, None, 0, max(ln[5] - 1, 0))
+            return cnt, ptr(loc[0], loc[1], loc[2] + (("i", idx if int_const(start) == 0 else int_binop("Add", start, idx), None),), None, False)
+        if it[1] == "enumerate":
+            cnt, item = iter_items(I, st, it[2][0])
+            return cnt, agg("tuple", None, None, [mk_int(64, False, None, 0, max(cnt - 1, 0)), item])
+        return None, TOP
+    I.iter_items = iter_items
+
     # ---------------- iteration over concrete integer ranges
     @model("iter::IntoIterator::into_iter", "iter::traits::collect::IntoIterator::into_iter")
     def into_iter(I, st, a, ctx):
@@ -405,6 +462,13 @@ def install(I):
         if not is_ptr(p):
             return NotImplemented
         v = I.read_loc(st, (p[1], p[2], p[3], None))
+        if isinstance(v, tuple) and v and v[0] == "iter":
+            cnt, item = iter_items(I, st, v)
+            if cnt is None:
+                return NotImplemented
+            if cnt == 0:
+                return [(NONE, st)]
+            return [(some(item), st.fork()), (NONE, st)]
         if is_agg(v) and v[2] and v[2].split("::")[-1] == "Range" and len(v[4]) == 2:
             s, e = v[4]
             cs, ce = (int_const(s) if is_int(s) else None), (int_const(e) if is_int(e) else None)
